@@ -487,6 +487,32 @@ def rule_show(ctx, R, fn=None):
         ok = bool(show_writes) and not reaches_without(cfg, start, ok_returns, cut_blocks=show_writes, cut_edges=list(qerr))
         R.check(ok, "show:%s:shows_text" % tag, "every non-empty captured text is written to the terminal (no path to a normal return skips the write of the text)", c.span)
     R.floor("display_closures:" + fn.rsplit("::", 2)[-2], n, 2, "display closures handed to the capturing writers")
+    # which callback labels which stream: the writer handed to the interpreter step as `out` announces "stdout", the
+    # one handed over as `err` announces "stderr"
+    vars_ = Vars(b)
+    org = Origins(b, fb)
+    steps = [(bi, t) for bi, t in b.calls() if callee_name(t["f"], fb) in (EXEC_ONE, "hyeong::core::execute::execute")]
+    news = {}
+    for bi, t in b.calls():
+        if callee_name(t["f"], fb).endswith("CustomWriter::new") and not t["dest"]["proj"]:
+            o = org.of_operand(t["args"][0], bi, "t")
+            if o[0] == "agg" and o[1].startswith("closure:"):
+                news[t["dest"]["l"]] = o[1].split(":", 1)[1].rsplit("::", 1)[-1]
+    lits = {}
+    for c in fb.closures_of(b):
+        try:
+            ts_ = templates_of(c, fb)
+            lits[c.name.rsplit("::", 1)[-1]] = {p_[1] for t in ts_ for p_ in t.pieces if p_[0] == "lit"} | {a[2] for t in ts_ for a in t.args if isinstance(a, tuple) and a[0] == "const" and isinstance(a[2], str)}
+        except Exception:
+            lits[c.name.rsplit("::", 1)[-1]] = set()
+    if R.anchor(bool(steps) and len(news) >= 2, "show:streams", "the step call and the two capturing writers"):
+        for bi, t in steps[:1]:
+            for pos, want, other in ((1, "stdout", "stderr"), (2, "stderr", "stdout")):
+                k = vars_.root_key(t["args"][pos])
+                cl = news.get(k[1]) if k and k[0] == "L" else None
+                texts = lits.get(cl, set())
+                ok = cl is not None and any(want in x for x in texts) and not any(other in x for x in texts)
+                R.check(ok, "show:label:%s" % want, "the writer passed to the interpreter step as its %s stream announces its text as [%s] (callback %s prints %s)" % ("output" if pos == 1 else "error", want, cl, sorted(x for x in texts if x.strip() and len(x) < 12)), t["span"]["at"])
 
 
 RULES = [
